@@ -24,6 +24,7 @@ UNITS = {
     'trie': {'template': 'units/trie/unit.rs', 'serves': ['C20'], 'min_verified': 95},
     'a2a': {'template': 'units/a2a/unit.rs', 'serves': ['C09', 'C10'], 'min_verified': 16},
     'merkle_build': {'template': 'units/merkle_build/unit.rs', 'serves': ['C15'], 'min_verified': 50},
+    'wshuffle': {'template': 'units/wshuffle/unit.rs', 'serves': ['C16', 'C10'], 'min_verified': 77},
     'shred_fill': {'template': 'units/shred_fill/unit.rs', 'serves': ['C13', 'C12', 'C11'], 'min_verified': 36},
     'lthash': {'template': 'units/lthash/unit.rs', 'serves': ['C20'], 'min_verified': 19},
     'vshreds': {'template': 'units/vshreds/unit.rs', 'serves': ['C11', 'C10'], 'min_verified': 10},
